@@ -109,6 +109,18 @@ def scenarios(tier, seed=0):
             for start in ("2001/05/01", "2001/04/21"):
                 spec = A.catalogue_spec(name, soil="SandyLoam", word="warm", cropkw=kw, start=start)
                 yield {"kind": "spec", "spec": spec, "label": ["override", name, kw, start]}
+    # crop-type switches and the water-productivity reduction in yield formation, flipped / at the documented end of their range, for
+    # calendar, thermal and converted (SwitchGDD=1) crops: branches only a few built-in crops take
+    from aquacrop.entities.crops.crop_params import crop_params
+    sw_names = names if tier != "quick" else sub + ["CottonGDD", "SoybeanGDD", "DryBeanGDD", "Quinoa", "DryBean"]
+    for name in sw_names:
+        det = int(crop_params[name].get("Determinant", 1))
+        variants = [{"WPy": 50}, {"Determinant": 1 - det}, {"WPy": 60, "Determinant": 0}]
+        if not name.endswith("GDD") and int(crop_params[name].get("CalendarType", 1)) == 1:
+            variants += [{"SwitchGDD": 1}, {"SwitchGDD": 1, "WPy": 60}]
+        for kw in variants:
+            spec = A.catalogue_spec(name, soil="SandyLoam", word="warm", irr="smt", cropkw=kw)
+            yield {"kind": "spec", "spec": spec, "label": ["type-switches", name, kw]}
     # degree-day methods 1-3 under days that lie entirely below the base or above the upper temperature
     blocks = [[d, "F"] for d in range(20, 24)] + [[d, "T"] for d in range(30, 34)] + [[d, "C"] for d in range(40, 43)]
     for name in (sub if tier == "quick" else names):
